@@ -332,9 +332,7 @@ impl KnowledgeGraphSnapshot {
         for (rel, tuples) in self.input_tuples.as_ref() {
             if let Some(extra) = needs_mutation.remove(rel) {
                 // This relation needs session facts: clone and extend
-                let mut cloned = tuples.clone();
-                cloned.extend(extra);
-                isolated_tuples.insert(rel.clone(), cloned);
+                isolated_tuples.insert(rel.clone(), union_with_session_facts(tuples, extra));
             } else {
                 // No session facts for this relation: share the existing vec
                 isolated_tuples.insert(rel.clone(), tuples.clone());
@@ -342,7 +340,7 @@ impl KnowledgeGraphSnapshot {
         }
         // Add relations that only exist in session facts (not in base data)
         for (rel, tuples) in needs_mutation {
-            isolated_tuples.insert(rel, tuples);
+            isolated_tuples.insert(rel, union_with_session_facts(&[], tuples));
         }
 
         // Set the isolated tuples on the engine (needed for pipeline)
@@ -392,15 +390,13 @@ impl KnowledgeGraphSnapshot {
             HashMap::with_capacity(self.input_tuples.len() + needs_mutation.len());
         for (rel, tuples) in self.input_tuples.as_ref() {
             if let Some(extra) = needs_mutation.remove(rel) {
-                let mut cloned = tuples.clone();
-                cloned.extend(extra);
-                isolated_tuples.insert(rel.clone(), cloned);
+                isolated_tuples.insert(rel.clone(), union_with_session_facts(tuples, extra));
             } else {
                 isolated_tuples.insert(rel.clone(), tuples.clone());
             }
         }
         for (rel, tuples) in needs_mutation {
-            isolated_tuples.insert(rel, tuples);
+            isolated_tuples.insert(rel, union_with_session_facts(&[], tuples));
         }
 
         let shared = Arc::new(isolated_tuples);
@@ -453,6 +449,21 @@ impl KnowledgeGraphSnapshot {
     pub fn is_materialized(&self, relation: &str) -> bool {
         self.materialized_relations.contains(relation)
     }
+}
+
+/// A relation's stored tuples plus the session facts for it, as a set: a session
+/// fact that repeats a stored tuple (or another session fact) adds nothing.
+fn union_with_session_facts(stored: &[Tuple], session_facts: Vec<Tuple>) -> Vec<Tuple> {
+    let mut seen: HashSet<&Tuple> = stored.iter().collect();
+    let mut fresh: Vec<Tuple> = Vec::with_capacity(session_facts.len());
+    for t in &session_facts {
+        if seen.insert(t) {
+            fresh.push(t.clone());
+        }
+    }
+    let mut out = stored.to_vec();
+    out.extend(fresh);
+    out
 }
 
 impl std::fmt::Debug for KnowledgeGraphSnapshot {
